@@ -7,17 +7,17 @@ func prop(id string, rules []string, decided, notDecided string) {
 }
 
 func init() {
-	prop("C06", []string{"R-SHARED", "R-NOGO"},
-		"no unsynchronised write to memory reachable from the shared compiled Regex/Engine (or a package variable) on any path from any search, enumeration or replace method, over all strategies (R-SHARED); no goroutine is started on a search path (R-NOGO).",
+	prop("C06", []string{"R-SHARED", "R-POOL", "R-NOGO"},
+		"no unsynchronised write to memory reachable from the shared compiled Regex/Engine (or a package variable) on any path from any search, enumeration or replace method, over all strategies (R-SHARED); no goroutine is started on a search path (R-NOGO); pooled per-search state is never used after it was handed back (another goroutine may own it) and never handed back twice, including inside the hand-back wrappers (R-POOL).",
 		"that every call returns its sequential result beyond the absence of shared writes; races inside the Go runtime/stdlib; Stats()/ResetStats() (documented unsafe, not search methods).")
 	prop("C16", []string{"R-GATE", "R-LITTRUNC", "R-ASMSTORE"},
 		"no literal sequence that may have dropped alternatives reaches the prefilter builder or a stored verification literal without a dominating coverage test (R-GATE); literal-list and literal-byte truncation always clears the covering/complete promise (R-LITTRUNC), so a 'complete' prefilter is built from untruncated literals; the Teddy assembly kernels store only to their frame, results and the candidate buffer (R-ASMSTORE).",
 		"fingerprint/bucket correctness of Teddy, Aho-Corasick and memmem results, 'smallest position at or after the offset' (value-level), SIMD = scalar equality.")
-	prop("C17", []string{"R-LITTRUNC", "R-GATE"},
-		"every shortening of a literal list marks partial coverage on every path, no collection loop returns a partial collection, every shortening of literal bytes clears Complete (R-LITTRUNC); partial sets are not consumed as covering sets (R-GATE).",
+	prop("C17", []string{"R-LITTRUNC", "R-GATE", "R-CLONE", "R-FOLD"},
+		"every shortening of a literal list marks partial coverage on every path, no collection loop returns a partial collection, every shortening of literal bytes clears Complete (R-LITTRUNC); partial sets are not consumed as covering sets (R-GATE); clones of a literal sequence carry every field, in particular the partial-coverage flag (R-CLONE); case-fold variants come from unicode.SimpleFold on every path (R-FOLD).",
 		"that the extracted bytes are the right bytes (prefix/suffix/inner necessity is a language-level fact), LCP/LCS/minimisation arithmetic.")
-	prop("C12", []string{"R-LITTRUNC", "R-GATE"},
-		"the literal-count and literal-length limits (MaxLiterals, MaxLiteralLen, cross-product limit) can only shrink what a prefilter promises, never make a non-covering set look covering or a truncated literal look complete, and a partial set never gates a search (R-LITTRUNC, R-GATE).",
+	prop("C12", []string{"R-LITTRUNC", "R-GATE", "R-CLONE", "R-SIBLING", "R-ASCIIGUARD"},
+		"the literal-count and literal-length limits (MaxLiterals, MaxLiteralLen, cross-product limit) can only shrink what a prefilter promises, never make a non-covering set look covering or a truncated literal look complete, and a partial set never gates a search (R-LITTRUNC, R-GATE, R-CLONE); the offset/state variants of each strategy helper consult the same engine flags as the base variant (R-SIBLING); the ASCII-only automaton (EnableASCIIOptimization) runs only on slices proven ASCII in full (R-ASCIIGUARD).",
 		"equality of results under DFA on/off, state limits, ASCII optimisation, CPU feature masking: value-level and declined.")
 	prop("C19", []string{"R-DISTINGUISH", "R-ASTWALK"},
 		"every fast-path family reads the pattern datum its answer depends on (lazy flag, case folding, repeat bounds) per the frozen table of fast paths (R-DISTINGUISH); every contains-detector that routes patterns away from engines that cannot express them descends into every operator with children (R-ASTWALK).",
@@ -25,9 +25,12 @@ func init() {
 	prop("C09", []string{"R-EXHAUST"},
 		"the NFA compiler's operator switch covers every operator regexp/syntax can emit and rejects unknown ones with an error (R-EXHAUST a).",
 		"error text equality, CompilePOSIX flags, nesting-depth parity, LiteralPrefix/SubexpNames values: not yet decided by a rule here.")
-	prop("C11", []string{"R-EXHAUST"},
-		"every per-strategy dispatcher (IsMatch, Find at zero/non-zero, FindIndices, FindIndicesAt, with-state) either handles every strategy or falls to the universal NFA helper (R-EXHAUST b).",
+	prop("C11", []string{"R-EXHAUST", "R-SIBLING"},
+		"every per-strategy dispatcher (IsMatch, Find at zero/non-zero, FindIndices, FindIndicesAt, with-state) either handles every strategy or falls to the universal NFA helper (R-EXHAUST b); the X / XAt / XAtWithState variants behind Find vs FindAll/Count consult the same guard flags (R-SIBLING).",
 		"the relational equalities themselves (Match <=> FindIndex != nil, prefix property of FindAll, Count = len(FindAll)).")
+	prop("C15", []string{"R-FOLD", "R-ASCIIGUARD", "R-DISTINGUISH"},
+		"case-insensitive literals are compiled/extracted through unicode.SimpleFold on every path (R-FOLD); the ASCII-only automaton runs only on slices proven ASCII (R-ASCIIGUARD); byte-table fast paths read the FoldCase flag and decline non-ASCII members (R-DISTINGUISH).",
+		"the UTF-8 range-splitting tables of compileUTF8Range* (a finite numerical fact over 1.1M code points), invalid-byte-as-U+FFFD behaviour: the core of C15 is declined.")
 	prop("C05", []string{"R-RECURSION", "R-EPOCH"},
 		"every search-time recursion (call-graph cycle reachable from a search root) is guarded by a visited test-and-set gate on every path to the recursive call (R-RECURSION); the visited epoch of the backtracker is never advanced inside a start-position loop that calls the gated recursion, and every advance handles wrap-around (R-EPOCH).",
 		"the constant K and every value-dependent loop count (candidate loops of the reverse strategies, prefilter rescans); polynomial compile time. This is the weakest claim relative to the property: it decides two necessary conditions of the visited-table bound only.")
@@ -37,8 +40,8 @@ func init() {
 	prop("C14", []string{"R-RESET"},
 		"cache clearing is complete: no transition/state memo of the lazy DFA cache survives Clear/ClearKeepMemory/Reset with recycled state ids (R-RESET), a necessary condition of 'exact under every cache capacity'.",
 		"correctness of determinisation, reverse NFA construction, one-pass ambiguity test, look-around handling: the engines' agreement with the reference is value-level and declined.")
-	prop("C20", []string{"R-POOL"},
-		"per-search state obtained from the pools is handed back on every path to return (R-POOL a): a leaked state is re-created by Pool.New on every call, so the documented zero-allocation calls would allocate in steady state.",
+	prop("C20", []string{"R-POOL", "R-BOUND"},
+		"per-search state obtained from the pools is handed back on every path to return (R-POOL a): a leaked state is re-created by Pool.New on every call, so the documented zero-allocation calls would allocate in steady state; the visited table is allocated only for a length that passed the capacity predicate, and every growth of the DFA cache is dominated by the within-capacity edge of its byte-budget test (R-BOUND).",
 		"the numeric bounds (cache capacity + one state, visited cap), heap held per Regex, allocation under cache churn.")
 	prop("C07", []string{"R-RO", "R-ASMSTORE"},
 		"no write reachable from a search root targets the caller's haystack/pattern/template bytes, including strings viewed as []byte (R-RO); every memory-destination instruction of the assembly kernels writes only its own frame, a result slot or a designated non-byte output buffer (R-ASMSTORE).",
